@@ -1071,16 +1071,21 @@ class BootstrapElectionModel(BaseElectionModel):
         # between unit and contest (ie. a 1 in i,j says that unit j belongs to contest i)
         # in case district election we need to create a variable that defines the state, district
         # which is what the contest is
+        # the contests are defined by the expected units only: unexpected units are not part of the model, so they
+        # must not add contests (which would change the dimension of the random effects and the random draws)
+        expected_units = pd.concat([reporting_units, nonreporting_units], axis=0)
         if self.district_election:  # want to model aggregate effect at both district and state levels
-            all_units["postal_code-district"] = all_units[["postal_code", "district"]].agg("_".join, axis=1)
+            expected_units["postal_code-district"] = expected_units[["postal_code", "district"]].agg("_".join, axis=1)
 
-            contest_indicator = pd.get_dummies(all_units["postal_code-district"])
-            postal_code_indicator = pd.get_dummies(all_units["postal_code"])
+            contest_indicator = pd.get_dummies(expected_units["postal_code-district"])
+            postal_code_indicator = pd.get_dummies(expected_units["postal_code"])
 
             # drop districts that are at-large districts for a state
-            postal_code_filter = all_units.groupby("postal_code")["postal_code-district"].nunique() > 1
+            postal_code_filter = expected_units.groupby("postal_code")["postal_code-district"].nunique() > 1
             valid_postal_codes = postal_code_filter[postal_code_filter].index
-            valid_districts = all_units[all_units.postal_code.isin(valid_postal_codes)]["postal_code-district"].unique()
+            valid_districts = expected_units[expected_units.postal_code.isin(valid_postal_codes)][
+                "postal_code-district"
+            ].unique()
             contest_indicator_filtered = contest_indicator.loc[:, valid_districts]
 
             # drop contest indicators if there are fewer than 10 units in contest
@@ -1096,7 +1101,7 @@ class BootstrapElectionModel(BaseElectionModel):
                 (postal_code_indicator.values, contest_indicator_filtered.values), axis=1
             )
         else:
-            contest_indicator = pd.get_dummies(all_units["postal_code"])
+            contest_indicator = pd.get_dummies(expected_units["postal_code"])
             self.aggregate_names = {c: i for i, c in enumerate(contest_indicator.columns.tolist())}
             aggregate_indicator = contest_indicator.values
 
